@@ -1219,6 +1219,86 @@ func checkWarnings(p *Program, r *Report, pk *ssa.Package, runner *ssa.Function)
 		r.Undecided("R17.9", "sim.Initialise:input-length", p.Pos(initialise.Pos()), "no copy of a looked-up input series found")
 	}
 
+	// R17.12: the run length comes from a series the model asked for
+	r.Rule("R17.12", "the run length is that of a requested input: the time extent of the input array (the last argument of the NewArray… call whose result receives the copies) derives only from len() of series returned by the lookup of a described input's name, never from len() of anything else in the request — a request may list series the model does not declare (any superset, in any order), and their lengths say nothing about the run")
+	{
+		n12 := 0
+		for _, c := range applyCalls {
+			nm := callName(c.Common())
+			if nm != "Apply" && nm != "ApplySlice" && nm != "Apply1" {
+				continue
+			}
+			recv := recvOf(c.Common())
+			if recv == nil || !isNDType(recv.Type()) {
+				continue
+			}
+			args := callArgs(c.Common())
+			if len(args) < 4 {
+				continue
+			}
+			if fc, ok := origin1(args[3]).(*ssa.Call); !ok || callName(fc.Common()) != "Find" {
+				continue
+			}
+			var extents []ssa.Value
+			var collect func(v ssa.Value, depth int)
+			collect = func(v ssa.Value, depth int) {
+				for _, o := range origins(v) {
+					call, ok := o.(*ssa.Call)
+					if !ok || depth > 3 {
+						continue
+					}
+					a := call.Common().Args
+					if strings.HasPrefix(callName(call.Common()), "NewArray") && len(a) > 0 {
+						extents = append(extents, a[len(a)-1])
+						continue
+					}
+					// a helper of the module that makes the array from one of its parameters
+					if h := call.Common().StaticCallee(); h != nil && h.Blocks != nil && InModule(h) {
+						for _, c3 := range callsIn(h) {
+							a3 := c3.Common().Args
+							if !strings.HasPrefix(callName(c3.Common()), "NewArray") || len(a3) == 0 {
+								continue
+							}
+							for j, prm := range h.Params {
+								if origin1(a3[len(a3)-1]) == ssa.Value(prm) && j < len(a) {
+									extents = append(extents, a[j])
+								}
+							}
+						}
+					}
+				}
+			}
+			collect(recv, 0)
+			for _, ext := range extents {
+				n12++
+				var foreign ssa.Value
+				dependsOn(ext, func(x ssa.Value) bool {
+					lc, ok := x.(*ssa.Call)
+					if !ok {
+						return false
+					}
+					b, ok := lc.Common().Value.(*ssa.Builtin)
+					if !ok || b.Name() != "len" || len(lc.Common().Args) != 1 {
+						return false
+					}
+					for _, o := range origins(lc.Common().Args[0]) {
+						if fc, ok := o.(*ssa.Call); ok && callName(fc.Common()) == "Find" {
+							continue
+						}
+						foreign = lc
+					}
+					return false
+				}, map[ssa.Value]bool{})
+				if foreign != nil {
+					r.Fail("R17.12", "sim.Initialise:run-length", p.Pos(foreign.Pos()), "the time extent of the input array is taken from len() of something other than a looked-up input of the model: a request that lists an extra series first (a superset of the inputs, which the runner must accept) then sizes the run by a series the model never reads, and the declared inputs are rejected or padded")
+				} else {
+					r.OK("R17.12", "sim.Initialise: the run length derives only from the lengths of looked-up inputs")
+				}
+			}
+		}
+		r.Analysed["R17.12 allocations of the input array judged"] = n12
+	}
+
 	// R17.10: the whole request is decoded
 	r.Rule("R17.10", "the request is decoded from the caller's reader itself: the argument of json.NewDecoder in the runner is the runner's own io.Reader parameter (a buffering wrapper is accepted); a limiting or transforming wrapper makes the answer depend on the size of the request")
 	{
